@@ -1,6 +1,6 @@
 (* Pinned statements of C10 (generated once by tools/mkpins.py from coq/props/C10.v, then committed). *)
 From DV Require Import Model.Base Model.NameCheck Model.Parser Model.Header Model.Readers Model.Uncompress
-  Model.Mutate Proofs.Hoare Proofs.HeaderBits Proofs.InsertLemmas props.C10.
+  Model.Mutate Spec.PlainSpec Proofs.Hoare Proofs.HeaderBits Proofs.InsertLemmas Proofs.PlainWf Proofs.InsertFail props.C10.
 Check (C10_insert_bound : forall sec rr s s',
   m_insert_rr sec rr s = (s', Ok tt) -> (N.of_nat (length (pp_packet (fst s'))) <= 8192)%N).
 Print Assumptions C10_insert_bound.
@@ -10,3 +10,11 @@ Print Assumptions C10_insert_core_atomic.
 Check (C10_second_question_refused : forall p c,
   be16_at p 4 612 = Ok c -> (1 <= c)%N -> rrcount_inc p SQuestion = Err InvalidPacket).
 Print Assumptions C10_second_question_refused.
+Check (C10_failed_insert_keeps_message : forall p v sec rr it s' e, bytes_ok p -> parse p = Ok v ->
+  m_insert_rr sec rr (v, it) = (s', Err e) ->
+  exists q v' qls qt lxa lxn lxr lxa' lxn' lxr',
+    pp_packet (fst s') = q /\ snd s' = it /\ uncompress p = Ok q /\ parse q = Ok v' /\
+    reading p qls qt lxa lxn lxr /\ reading q qls qt lxa' lxn' lxr' /\
+    map plain_record lxa' = map plain_record lxa /\ map plain_record lxn' = map plain_record lxn /\
+    map plain_record lxr' = map plain_record lxr).
+Print Assumptions C10_failed_insert_keeps_message.
